@@ -242,6 +242,14 @@ func (s *Solver) Check(extra []*Term, vars []*Term, wantModel bool) (Verdict, Mo
 	} else {
 		s.send("(check-sat)")
 	}
+	// hard limit: the solver's own per-query timeout is not always honoured (FP↔BV conversions in z3 4.8); a query that
+	// overruns it threefold is killed and reported as unknown (the solver process is replaced for the next path)
+	watchdog := time.AfterFunc(time.Duration(s.TimeoutMS)*3*time.Millisecond+15*time.Second, func() {
+		if s.cmd != nil && s.cmd.Process != nil {
+			s.cmd.Process.Kill()
+		}
+	})
+	defer watchdog.Stop()
 	v := Unknown
 	for {
 		line, err := s.readLine()
